@@ -59,7 +59,7 @@ def run_impl(case):
         r = type_transform(case["value"], T, o)
     except Exception as e:
         return core.classify_exc(e)
-    return ("ok", r)
+    return ("ok", core.freeze(r))
 
 
 def coq_case(world, case, outcome):
